@@ -75,6 +75,16 @@ CHECKS = {
          'for every syntactic path and calling context. Finds/decides the hasattr / applicability / supported-name guards the property rests on; implicit '
          'exceptions of third-party libraries for particular values are not decided.',
          'Trusted: wire-decoded provenance of payload objects; pie class table from kmip/pie/objects.py; T_USE-independent.'),
+ 'C14': ('CFG + reaching definitions over the Locate filter loop; kind typing (raw value vs KMIP wrapper) of both comparison operands per attribute arm; flag monotonicity; sort/slice shape',
+         'Candidates from the access-filtered list only; match flag only lowered; all 13 filterable attributes reach a like-with-like comparison against a '
+         'stored field; sort on initial_date descending between filter and slice; the three slice shapes under the four None-test combinations. Decides '
+         'necessary structural conditions for all stores and filter conjunctions; per-predicate value semantics are not decided.',
+         'Trusted: primitives.__eq__ returns NotImplemented for foreign types.'),
+ 'C15': ('constant-folded rule table + abstract interpretation with attribute-name sets: guard coverage at every mutation, effect sets, field/name agreement, stored-value provenance',
+         'At every mutation of the loaded object reachable from Set/Modify/DeleteAttribute the possible attribute names are all client-modifiable/deletable; the '
+         'fields written (names, app_specific_info, object_groups, sensitive) exclude the nine protected ones and match the getter; stored values derive from '
+         'the request attribute value only. Exhaustive over all paths and helper calling contexts.',
+         'Trusted: T_PROTECTED transcribes the property. Positional index semantics are value-level.'),
 }
 
 NOT_YET = 'check not built yet in this session (rules designed in DESIGN.md section 4); will be claimed once its check exists and is silent on the unchanged tree'
